@@ -309,6 +309,19 @@ ADD = {
          "Coq proof (induction over call lists) + Python->Gallina translator with per-function equality proofs re-checked on every "
          "run + vm_compute correspondence against the real classes"),
 }
+ADD["C01"] = ("  ADDED: the passage-level theorem is now EXACT (passage_content_reference_meaning: no 'up to newlines'): the two "
+              "whitespace normalisations are stated on source lines (Sem/ReferenceWs.v) and the compiler's token passes are "
+              "proved to be that rule (side condition proper_lines, implied by printable, shown needed and replayed on the real "
+              "compiler); printed_source_plays_with_the_exact_reference_meaning.  Compile-to-file = compile-in-memory is a "
+              "theorem: story_of_json (loads (dumps_indent2 (story_to_json st))) = st for every story, hence equal play.", None)
+ADD["C12"] = ("  ADDED: 'plain JSON data that survives a JSON round trip unchanged' inside the model - Story/StoryJson.v is a typed "
+              "AST of the REAL compiled dict (every optional member, key order), with an exact writer and a strict reader; proved "
+              "for all stories at any nesting: reader(writer d) = d, distinct keys, loads(dumps_indent2 d) = d, the engine's view "
+              "of d is the model story.  Tie: on real compiled stories (repository files + generated) the strict reader accepts "
+              "the dict, the writer reproduces it exactly incl. key order, and its engine view equals the story term - inside "
+              "Coq.", None)
+ADD["C05"] = (ADD["C05"][0] + "  The side conditions of the text theorem are proved to be invariants of every reachable state, "
+              "every restore point and the save slot (Proofs/SaveTextReach.v), for oracles returning Python values.", None)
 for _pid, (_t, _tech) in ADD.items():
     CLAIMED[_pid]["text"] += _t
     if _tech:
